@@ -286,3 +286,103 @@ def run_readers(ctx, own_kinds, what, note, nontrivial_desc):
                        "shuttle explores real interleavings of salsa's shuttle build"]
     ctx.write_evidence("proof")
     shutil.rmtree(out_root, ignore_errors=True)
+
+
+# ====================================================================== cyclic programs (C18, C20 stage 2)
+CYC_BIN = "cyc_par"
+
+
+def build_cyc_harness(std=False):
+    """the cyc_par bin of harness-par: shuttle build (C18) or OS threads (C20 stage 2); build
+    paths go through common.crate_dir / common.target_dir (VERIF_REPO runs use a private copy)"""
+    if not std:
+        rel = common.cargo_build(HARNESS_CRATE, TARGET_SHUTTLE, bins=[CYC_BIN])
+        return os.path.join(rel, CYC_BIN)
+    cdir = common.crate_dir(HARNESS_CRATE)
+    for f in ("Cargo.lock", "rust-toolchain.toml"):
+        if not os.path.exists(os.path.join(cdir, f)) and os.path.exists(os.path.join(common.REPO, f)):
+            shutil.copy(os.path.join(common.REPO, f), os.path.join(cdir, f))
+    tdir = common.target_dir(TARGET_STD)
+    rc, lg = common.sh(["cargo", "build", "--offline", "--release", "--no-default-features", "--bin", CYC_BIN], cwd=cdir,
+                       timeout=2400, env={"CARGO_TARGET_DIR": tdir, "RUSTFLAGS": f"--cfg {common.GUARD}"})
+    if rc != 0:
+        raise common.CheckError("cargo build harness-par/cyc_par (OS threads) failed:\n" + lg[-3000:])
+    return os.path.join(tdir, "release", CYC_BIN)
+
+
+def build_cycle_driver():
+    """ocaml/cycle_driver.ml (specification columns kleene / spec_fallback of the cycle engine)"""
+    from checks import cyclecheck
+    okm, logm = common.coq_make(cyclecheck.COQ_TARGETS + ["Core/Spec.vo", "Core/Dsl.vo"])
+    if not okm:
+        raise common.CheckError("Cycle model files do not compile:\n" + logm[-2000:])
+    return cyclecheck.build_ocaml_cycle()
+
+
+def build_cert_driver():
+    """ocaml/ccycle_driver.ml (extracted mh_cert_fix / mh_cert_fb / mh_below of coq/CCycle/Model.v)"""
+    okm, logm = common.coq_make(["CCycle/Model.vo", "Cycle/DslSpec.vo", "Core/Dsl.vo"])
+    if not okm:
+        raise common.CheckError("CCycle model does not compile:\n" + logm[-2000:])
+    out = os.path.join(common.BUILD, "ocaml-ccycle")
+    drv = os.path.join(out, "ccycle_driver")
+    deps = [os.path.join(common.COQ, p) for p in ("CCycle/Model.vo", "CCycle/Extract.v", "Cycle/Spec.vo", "Cycle/DslSpec.vo", "Core/Dsl.vo")]
+    deps.append(os.path.join(common.ROOT, "ocaml", "ccycle_driver.ml"))
+    if os.path.exists(drv) and all(os.path.exists(d) and os.path.getmtime(d) <= os.path.getmtime(drv) for d in deps):
+        return drv
+    common.sh([os.path.join(common.ROOT, "ocaml", "build_ccycle.sh")], timeout=900, check=True,
+              env={"COQROOT": common.COQ, "OUT": out})
+    return drv
+
+
+def explore18(ctx, cases, harness, scheds, iters, out_root, trace_cap, **kw):
+    res, tdirs = {}, []
+    for sched in scheds:
+        td = os.path.join(out_root, "tr-" + sched)
+        os.makedirs(td, exist_ok=True)
+        out, hung = pe.run_harness18(cases, harness, iters, sched, ctx.seed, trace_dir=td, trace_cap=trace_cap, **kw)
+        res[sched] = (out, hung)
+        tdirs.append(td)
+    return res, tdirs
+
+
+def linearisation_known(case, harness, finding, seed, n=200):
+    """Is the differing value of `finding` (a later-revision request) also returned by a
+    SINGLE-THREADED run of the same history in which the requests of the par groups are made in
+    another order?  (The cycle engine's known findings depend on the entry order.)"""
+    cid = case.split()[1]
+    out, _ = pe.run_harness18([case], harness, 0, "pct", seed, shards=1, trace_cap=0, ref_orders=n)
+    key = tuple(finding["detail"]["request"])
+    for r in out.get(cid, {}).get("refo", []):
+        if pe.parse_results(r).get(key) == finding["detail"]["got"]:
+            return True
+    return False
+
+
+def replay18(ctx, rp, std=False):
+    """Re-run exactly the recorded case with the recorded scheduler and seed."""
+    harness = build_cyc_harness(std=std)
+    driver = build_cycle_driver()
+    case = rp.get("case")
+    if not case:
+        print("no failing schedule was recorded:", json.dumps(rp.get("broken") or rp.get("first_mismatch"))[:2000])
+        return 1
+    spec = pe.specification18([case], driver)
+    cid = case.split()[1]
+    out, hung = pe.run_harness18([case], harness, rp.get("iters_to_run", 100), rp.get("scheduler", "pct"),
+                                 rp.get("harness_seed", rp.get("seed", 1)), shards=1, trace_cap=0)
+    fs, known = pe.check_case18(cid, spec[cid], out, accept=tuple(rp.get("accept", ("p8",))))
+    fs = [f for f in fs if f["kind"] != "values" or f["detail"]["revision"] == 0 or rp.get("os_threads")
+          or not linearisation_known(case, harness, f, rp.get("harness_seed", 1))]
+    print(f"case {cid}: {len(out.get(cid, {}).get('iters', []))} schedules re-run, findings: {len(fs)}, "
+          f"differences of the known single-threaded classes: {len(known)}")
+    for f in fs[:5]:
+        print("  ", json.dumps(f)[:700])
+    sf = rp.get("shuttle_schedule_file")
+    if sf and os.path.exists(sf) and not std:
+        p = os.path.join(common.BUILD, "cases", f"replay-{cid}.txt")
+        os.makedirs(os.path.dirname(p), exist_ok=True)
+        open(p, "w").write(case + "\n")
+        rc, lg = common.sh([harness, p, "--replay-schedule", sf])
+        print(lg[-1500:])
+    return 1 if fs else 0
